@@ -1410,7 +1410,7 @@ func genCmdCase(rt *rapid.T) (c04Case, *env) {
 	if recurse {
 		tail = append(tail, "-r")
 	}
-	kinds := []string{"no_backend", "unknown_backend", "two_idl_files", "no_idl_file", "missing_idl_file", "bad_option_value", "bad_option_value", "unknown_plugin", "unknown_flag", "bad_flag_value", "second_backend_invalid"}
+	kinds := []string{"no_backend", "unknown_backend", "two_idl_files", "no_idl_file", "missing_idl_file", "bad_option_value", "bad_option_value", "unknown_plugin", "unknown_flag", "bad_flag_value", "second_backend_invalid", "first_backend_invalid", "first_backend_invalid"}
 	var args []string
 	var detail string
 	for args == nil {
@@ -1453,6 +1453,14 @@ func genCmdCase(rt *rapid.T) (c04Case, *env) {
 		case "bad_flag_value":
 			detail = pick(e, "flag", []string{"-plugin-time-limit=abc", "-r=maybe", "-check-keywords=7"})
 			args = append(append([]string{"-g", backend, detail}, tail...), main)
+		case "first_backend_invalid":
+			// an invalid -g followed by valid ones: the failure of an earlier target must not be forgotten
+			detail = pick(e, "first", []string{"nosuch", "go:naming_style=foo", "go:gen_setter=maybe", "fastgo:template=foo", "fastgo:naming_style=foo"})
+			args = []string{"-g", detail, "-g", backend}
+			if e.coin("third") {
+				args = append(args, "-g", pick(e, "third_backend", []string{"go", "fastgo"}))
+			}
+			args = append(append(args, tail...), main)
 		case "second_backend_invalid":
 			// a valid -g followed by an invalid one: the first backend's files are written before the second is looked at
 			if vt.Known(prop, kSecondBackend) {
